@@ -175,7 +175,9 @@ func init() {
 			{"ircserver.IRCServer.Marshal", g("config")}, {"ircserver.IRCServer.Marshal", g("holds")}, {"ircserver.IRCServer.Marshal", g("chanwc")},
 			{"ircserver.IRCServer.Marshal", vc.UnitOpts{AssertsOnly: true, Groups: []string{"sessnicks"}, AssumeGroups: []string{"sess-f", "sess-same"}}},
 			{"ircserver.IRCServer.Unmarshal", g("sessin", "sessrepr")}, {"ircserver.IRCServer.Unmarshal", g("sessin", "nicks")},
-			{"ircserver.IRCServer.Unmarshal", g("sessin", "services")}, {"ircserver.IRCServer.Unmarshal", g("sessin", "modes")},
+			{"ircserver.IRCServer.Unmarshal", vc.UnitOpts{Asserts: true, Groups: []string{"services$", "services-alloc", "services-new", "services-kept", "services-merged"}, AssumeGroups: []string{"sessin"}}},
+			// "every list entry is a services session" never meets "every services session is in the list"
+			{"ircserver.IRCServer.Unmarshal", vc.UnitOpts{Asserts: true, Groups: []string{"services-only"}, AssumeGroups: []string{"sessin", "services-alloc", "services-new"}}}, {"ircserver.IRCServer.Unmarshal", g("sessin", "modes")},
 			{"ircserver.IRCServer.Unmarshal", g("sessin", "chans")},
 			{"ircserver.IRCServer.Unmarshal", g("config")}, {"ircserver.IRCServer.Unmarshal", g("holds")}, {"ircserver.IRCServer.Unmarshal", g("chan", "channicks")},
 		}
